@@ -1,20 +1,8 @@
 INIT Init
 NEXT Next
 CONSTANTS
-  L1S = {"in"}
-  L2S = {"absent", "in", "oos"}
-  TRS = {"absent", "in", "oos"}
-  TAPS = {"neutral", "plus"}
-  SHIFTS = {0, 150}
-  PFES = {"zero", "pos"}
-  GENS = {"absent", "in", "oos"}
-  SGENS = {"absent", "small", "large"}
-  LD2S = {"absent", "in"}
-  SHS = {"absent", "in"}
-  SWLS = {"absent", "open"}
-  SWBS = {"closed", "open"}
-  B3S = {TRUE}
-  ROUTES = {"ppc", "mpc"}
+  TIER = "quick"
+INVARIANT AllWellFormed
 INVARIANT SlackSurvives
 INVARIANT ClassesPartition
 INVARIANT ClassEnergisedAsWhole
